@@ -65,6 +65,8 @@ def go_case(c, cid, rnd, schedule=None, rand=None, sizes=None, props=None, notra
             op = {"kind": kind, "ctx": ctx, "size": sizes[rnd.randrange(len(sizes))], "parts": rnd.randrange(1, 4)}
             if kind == "MX":
                 op["size"] = 0  # nothing of it ever reaches the transport
+            if kind in ("MV", "Wv", "CWv") and op["size"] >= 2048 and rnd.randrange(3) == 0:
+                op["parts"] = 1025 + rnd.randrange(600)  # a vector of more segments than one writev(2) takes
             if kind in ("RF", "MR", "MT"):
                 # one low-level write per chunk; ReadFrom reads at most 1024 bytes at a time
                 cs = [x for x in sizes if 0 < x <= 1024] or [1, 7, 100]
